@@ -1,6 +1,7 @@
 (* Readable consequences of [exec_meets_contract], and the facts that need no hypothesis at all
    (no panic for any input whatever). *)
-From SC Require Import Base.Prelude Group.Exec Group.C17Judge Group.ExecLemmas Group.ExecProofs.
+From SC Require Import Base.Prelude Group.Exec Group.C17Judge Group.ExecLemmas Group.ExecProofs
+  Group.ExecAwareProofs.
 From Coq Require Import Permutation Arith.
 
 Local Open Scope nat_scope.
@@ -199,7 +200,7 @@ Theorem upto_props : forall k ms order, all_plain ms -> is_perm order (List.leng
 Proof.
   intros k ms order AP P x. unfold x. rewrite exec_meets_contract by auto.
   unfold contract, upto_contract. cbn [x_ret x_retstep x_calls x_leak x_cancel].
-  rewrite (all_returned_plain ms order _ AP P).
+  rewrite (all_returned_plain ms order _ (or_introl AP) P).
   assert (NP : nfails ms (members ms) = nfails ms order) by (symmetry; apply nfails_perm; exact P).
   rewrite NP.
   eexists. split; [|split; [|split; [|split; [|split; [|split]]]]]; try reflexivity.
@@ -282,6 +283,74 @@ Proof.
     assert (E : nfails ms (members ms) = zlen (members ms)).
     { apply nfails_all_iff. intros i Hi. apply A. apply members_in. auto. }
     rewrite E, zlen_members. destruct ms; [congruence|]. simpl List.length. lia.
+Qed.
+
+(* ---- ExecuteUpTo with cancellation-aware members ---- *)
+Lemma decision_step_decided : forall k ms order c, decision_step k ms order c -> decided_at k ms order = Some c.
+Proof.
+  intros k ms order c [R [T B]]. unfold decided_at. apply find_seq_some. split; [lia|]. split.
+  - apply Z.ltb_lt. auto.
+  - intros x Hx. destruct (Z.ltb_spec (Z.max k 0) (nfails ms (firstn x order))); auto.
+    exfalso. apply (B x); auto; lia.
+Qed.
+
+Lemma no_decision_step : forall k ms order,
+  (forall c, 1 <= c <= List.length ms -> ~ (Z.max k 0 < nfails ms (firstn c order))%Z) ->
+  decided_at k ms order = None.
+Proof.
+  intros k ms order H. unfold decided_at. apply find_seq_none. intros x Hx.
+  destruct (Z.ltb_spec (Z.max k 0) (nfails ms (firstn x order))); auto. exfalso. apply (H x); auto; lia.
+Qed.
+
+(* Members may watch their context.  The outcome is still decided by the members' own outcomes:
+   the call fails exactly when more than max(k,0) of them fail by themselves, and the error is the
+   first failure observed in completion order (never a context error: the context is only cancelled
+   after that failure).  At the decision step c the context is cancelled; every aware member that had
+   not finished by then (position >= c in the order) sees it at step c and returns its context
+   error: its result slot stays nil; it is counted as one more failure but changes neither the
+   outcome nor the returned error.  Every other member's message is at its own index, including
+   those that finished before c and the context-ignoring ones that finish later. *)
+Theorem upto_props_aware : forall k ms order, is_perm order (List.length ms) ->
+  let x := exec (AUpTo k) ms order in
+  let n := List.length ms in
+  exists res err,
+    x_ret x = RSlice res err /\ List.length res = n /\
+    (err <> 0%Z <-> (Z.max k 0 < nfails ms (members ms))%Z) /\
+    (err <> 0%Z -> exists i, first_in (failed ms) order i /\ err = zi i) /\
+    x_calls x = all_calls ms /\ x_leak x = 0%Z /\
+    (forall c, decision_step k ms order c ->
+       x_cancel x = Z.of_nat c /\
+       forall j, j < n ->
+         if aware_at ms j && (c <=? pos j order)
+         then nth j res 0%Z = 0%Z /\ nth j (x_saw x) 0%Z = Z.of_nat c
+         else nth j res 0%Z = msg_of j (out_at ms j) /\ nth j (x_saw x) 0%Z = (-1)%Z) /\
+    ((forall c, 1 <= c <= n -> ~ (Z.max k 0 < nfails ms (firstn c order))%Z) ->
+       res = plain_results ms /\ (ms <> [] -> x_cancel x = Z.of_nat n) /\ x_retstep x = Z.of_nat n /\
+       forall j, j < n -> nth j (x_saw x) 0%Z = (-1)%Z).
+Proof.
+  intros k ms order P x n. unfold x. rewrite exec_meets_contract_full by auto.
+  unfold contract, upto_contract. cbn [x_ret x_retstep x_calls x_leak x_cancel x_saw].
+  assert (NP : nfails ms (members ms) = nfails ms order) by (symmetry; apply nfails_perm; exact P).
+  rewrite NP.
+  eexists. eexists. split; [reflexivity|]. split; [|split; [|split; [|split; [|split; [|split]]]]]; try reflexivity.
+  - unfold members. rewrite map_length, seq_length. reflexivity.
+  - destruct (Z.ltb_spec (Z.max k 0) (nfails ms order)) as [L|L].
+    + split; auto. intros _. destruct (first_err_nonzero ms order) as [i [_ E]]; [lia|].
+      fold (first_err ms order). rewrite E. unfold zi. lia.
+    + split; [congruence|lia].
+  - destruct (Z.ltb_spec (Z.max k 0) (nfails ms order)) as [L|L]; [|congruence].
+    intros _. apply first_err_nonzero. lia.
+  - intros c DS. rewrite (decision_step_decided _ _ _ _ DS). split.
+    + rewrite cancel_spec_length. destruct DS as [R _]. fold n in R. fold n.
+      destruct n; [lia|reflexivity].
+    + intros j Hj. unfold saw_spec, members. rewrite !nth_map_seq by auto.
+      unfold cancelled_member. destruct (aware_at ms j && (c <=? pos j order)); split; reflexivity.
+  - intros NO. rewrite (no_decision_step _ _ _ NO).
+    rewrite (all_returned_plain ms order None (or_intror eq_refl) P). fold n.
+    split; [|split; [|split]]; auto.
+    + intros NE. rewrite cancel_spec_length. fold n. destruct n eqn:En; auto.
+      destruct ms; [congruence|discriminate].
+    + intros j Hj. unfold saw_spec, members. rewrite nth_map_seq by auto. reflexivity.
 Qed.
 
 (* ---- ExecuteFast: first success in completion order; errs only if every member fails ---- *)
@@ -409,33 +478,33 @@ Qed.
 
 Theorem judge_sound : forall a ms order obs,
   C17_guard (KRun a ms order obs) = true ->
-  (upto_api a = true -> plain_b ms = true) ->
   agrees (KRun a ms order obs) = true -> C17_ok (KRun a ms order obs) = true.
 Proof.
-  intros a ms order obs G PL A. simpl in *. apply perm_b_sound in G.
-  rewrite <- exec_meets_contract; auto. intros U. apply plain_b_sound. auto.
+  intros a ms order obs G A. simpl in *. apply perm_b_sound in G.
+  rewrite <- exec_meets_contract_full; auto.
+Qed.
+
+Lemma result_eqb_refl : forall x, result_eqb x x = true.
+Proof.
+  intros x. unfold result_eqb.
+  assert (LR : forall l, listZ_eqb l l = true).
+  { induction l; simpl; auto. unfold listZ_eqb in *. simpl. rewrite Z.eqb_refl, IHl. reflexivity. }
+  assert (RR : ret_eqb (x_ret x) (x_ret x) = true).
+  { destruct (x_ret x); simpl; rewrite ?LR, ?Z.eqb_refl; reflexivity. }
+  rewrite RR, !LR, !Z.eqb_refl. reflexivity.
 Qed.
 
 (* the model satisfies the property predicate on every input of the guard *)
 Theorem model_ok : forall a ms order,
-  perm_b order (List.length ms) = true -> (upto_api a = true -> plain_b ms = true) ->
-  C17_ok (KRun a ms order (exec a ms order)) = true.
+  perm_b order (List.length ms) = true -> C17_ok (KRun a ms order (exec a ms order)) = true.
 Proof.
-  intros a ms order G PL. apply judge_sound; auto. simpl.
-  assert (R : forall x, result_eqb x x = true).
-  { intros x. unfold result_eqb.
-    assert (LR : forall l, listZ_eqb l l = true).
-    { induction l; simpl; auto. unfold listZ_eqb in *. simpl. rewrite Z.eqb_refl, IHl. reflexivity. }
-    assert (RR : ret_eqb (x_ret x) (x_ret x) = true).
-    { destruct (x_ret x); simpl; rewrite ?LR, ?Z.eqb_refl; reflexivity. }
-    rewrite RR, !LR, !Z.eqb_refl. reflexivity. }
-  apply R.
+  intros a ms order G. apply judge_sound; auto. simpl. apply result_eqb_refl.
 Qed.
 
-(* ---- small instances with cancellation-aware members under ExecuteUpTo ----
-   Not a theorem of the property (bounded): it documents that the closed-form contract and the
-   model also coincide where [exec_meets_contract] has a hypothesis, for every group of up to 3
-   members of every kind (aware or not), every order and budgets -1..3 / strategies 0..7. *)
+(* ---- small instances, evaluated ----
+   A regression example only (bounded): model and contract coincide on every group of up to 3
+   members of every kind, every order, budgets -1..3 and strategies 0..7.  The statement for all
+   sizes is [exec_meets_contract_full]. *)
 Fixpoint perms (l : list nat) (fuel : nat) : list (list nat) :=
   match fuel with
   | O => [[]]
